@@ -139,7 +139,7 @@ def build_case(data):
     nsec = t.int(1, 5)
     slots = []
     for i, e in enumerate(entries):
-        slots.append({"sec": t.int(0, nsec - 1) if i else 0, "where": t.choice(["text"] * 5 + ["emph", "item", "footnote", "tight"]),
+        slots.append({"sec": t.int(0, nsec - 1) if i else 0, "where": t.choice(["text"] * 5 + ["emph", "item", "footnote", "tight", "atletter"]),
                       "entry": im.render_entry(e)})
     slots.sort(key=lambda s: s["sec"])       # stable: document order inside a section
     return {"class": cls, "columns": cols, "sections": nsec, "slots": slots,
@@ -171,6 +171,9 @@ def case_source(case):
             out.append("%s %s\n" % (word, idx))
         elif k == "tight":
             out.append("%s%s%s " % (word, idx, word))
+        elif k == "atletter":
+            # the entry is read while @ is a letter (as inside a package or a \makeatletter helper)
+            out.append("%s \\makeatletter %s\\makeatother\n" % (word, idx))
         elif k == "emph":
             out.append("\\emph{%s%s} " % (word, idx))
         elif k == "item":
